@@ -2,12 +2,37 @@
 from kernel_main import main, run  # noqa
 
 
+def extra(report, fam, tier, seed):
+    import os
+    import whole_kernel_part as WP
+    from standins import sweep as SW
+
+    from standins import kernels as K
+
+    # the whole-kernel proofs use a fixed, seed-independent family so that the committed baseline applies
+    fam = K.family("quick", 0, 14 if tier == "quick" else 40)
+    regress = WP.run(report, fam, tier, seed, update_baseline=bool(os.environ.get("VERIF_UPDATE_BASELINE")))
+    # a kernel that was proved completely on the unchanged tree and is not any more: directed
+    # witness search on the reference machine with capacities 1, 2, 3
+    members = {m.key: m for m in fam}
+    for key, kind, r in regress[:12]:
+        only_unknown = not r.get("refuted") and not r.get("unsupported")
+        res, _ = SW.sweep("thorough", seed, {"C05"}, capacities=(1, 2, 3), members=[members[key]], procs=1)
+        fails = [f for x in res for f in x["failures"] if f["prop"] == "C05"]
+        if fails:
+            f = fails[0]
+            report.violation(f"whole-kernel-regression:{key}:{kind}"[:150], dict(what=f["what"], problem=key, kernel=kind, open_checks=r["open"][:6], sizes=f.get("sizes"),
+                                                                                capacity=f.get("capacity"), inputs=f.get("inputs")), True)
+        elif r.get("refuted"):
+            report.undecide(f"whole-kernel proof of {key} [{kind}] no longer goes through (open: {r['open'][:4]}); no failing input found on the reference machine")
+
+
 def check(argv):
     return run(
-        "C05", argv,
+        "C05", argv, extra=extra,
         analyses=["frame", "returns_zero", "guarded_reads", "progress"],
         static_note="static analyses of standins/static_ir.py are sound over-approximations (pointer-origin taint, syntactic loop guards)",
-        explanation="Kind B: for every kernel (evaluate/assemble/compute) of the problem family, static proofs on the emitted IR that no store or "
+        explanation="Kind B (whole kernel, all inputs): symbolic execution of the emitted IR with Houdini-inferred loop invariants proves every load/store in bounds, every allocation size non-negative, every store inside kernel-owned arrays and every loop measure decreasing, for the kernels listed as fully proved. Kind B (static): for every kernel (evaluate/assemble/compute) of the problem family, static proofs on the emitted IR that no store or "
                     "realloc goes through an input tensor, every input crd read is under its cursor's loop guard, every loop advances one of its "
                     "condition variables, and the body ends in `return 0`. Kind C: every load/store/realloc of the same kernels checked on the reference "
                     "machine (bounds, initialisation, ownership, liveness, int32, step budget) with initial capacities 1.. through the capacity knob.",
